@@ -44,6 +44,15 @@ pub struct Outcome {
     pub in_place: bool,
     pub grew: bool,
     pub skipped: bool,
+    /// the case as a plain history for the generic harness: operations before the triggering insertion,
+    /// the triggering operations, the per-id hash plan, and the configuration (with `initial_capacity`)
+    pub script: Option<Script>,
+}
+pub struct Script {
+    pub cfg: MapCfg,
+    pub plan: [u64; 256],
+    pub before: Vec<MapOp>,
+    pub trigger: Vec<MapOp>,
 }
 
 fn buckets_target() -> usize {
@@ -58,12 +67,13 @@ pub fn run_case(c: &Case) -> Result<Outcome, String> {
     let mut cfg = MapCfg::new(Plan::Zero, 250);
     cfg.max_buckets = 4 * n;
     cfg.check_alloc_size = true;
+    let cap = hashbrown::verif::bucket_mask_to_capacity(n - 1);
+    cfg.initial_capacity = Some(cap);
     let h = MapHarness::<TKey, TVal>::new(cfg.clone());
     env::set_plan(&[0u64; 256]);
-    let cap = hashbrown::verif::bucket_mask_to_capacity(n - 1);
     // (the baseline of the ledgers is taken before the table obtains its block)
     let mut sut = MapSut::<TKey, TVal>::new(&cfg);
-    sut.map = Map::with_capacity_and_hasher_in(cap, PlanBuild::default(), env::CheckAlloc);
+    let rec: std::cell::RefCell<Vec<MapOp>> = std::cell::RefCell::new(Vec::new());
     if sut.map.verif_dump().bucket_mask + 1 != n {
         return Err("MACHINERY: unexpected bucket count".into());
     }
@@ -72,6 +82,7 @@ pub fn run_case(c: &Case) -> Result<Outcome, String> {
     let mut block_ids: Vec<Vec<u8>> = Vec::new();
     let universe_now = |next: u8| next.max(1);
     let step = |sut: &mut MapSut<TKey, TVal>, op: MapOp, u: u8| -> Result<(), String> {
+        rec.borrow_mut().push(op);
         h.apply_op(sut, &op, true, &stats).map_err(|m| format!("{:?}: {m}", op))?;
         sut.check_all(u, true, true).map_err(|m| format!("after {:?}: {m}", op))
     };
@@ -82,7 +93,7 @@ pub fn run_case(c: &Case) -> Result<Outcome, String> {
             next_id += 1;
             env::with(|e| e.plan[id as usize] = mk_hash(pos(b.home_off), b.tag));
             if sut.map.capacity() == sut.map.len() {
-                return Ok(Outcome { in_place: false, grew: false, skipped: true });
+                return Ok(Outcome { in_place: false, grew: false, skipped: true, script: None });
             }
             step(&mut sut, MapOp::Insert(id), universe_now(next_id))?;
             ids.push(id);
@@ -102,21 +113,24 @@ pub fn run_case(c: &Case) -> Result<Outcome, String> {
                 None => break,
             };
             if next_id >= 240 {
-                return Ok(Outcome { in_place: false, grew: false, skipped: true });
+                return Ok(Outcome { in_place: false, grew: false, skipped: true, script: None });
             }
             let id = next_id;
             next_id += 1;
             env::with(|e| e.plan[id as usize] = mk_hash(slot as u64, 0x33));
+            rec.borrow_mut().push(MapOp::Insert(id));
             h.apply_op(&mut sut, &MapOp::Insert(id), true, &stats)?;
             fillers.push(id);
         }
         sut.check_all(universe_now(next_id), true, true).map_err(|m| format!("after the fill: {m}"))?;
         for id in fillers {
+            rec.borrow_mut().push(MapOp::Remove(id));
             h.apply_op(&mut sut, &MapOp::Remove(id), true, &stats)?;
         }
         if _round == 0 {
             for (b, ids) in c.blocks.iter().zip(block_ids.iter()) {
                 for &id in ids.iter().skip(b.early as usize).take(b.late as usize) {
+                    rec.borrow_mut().push(MapOp::Remove(id));
                     h.apply_op(&mut sut, &MapOp::Remove(id), true, &stats)?;
                 }
             }
@@ -127,7 +141,7 @@ pub fn run_case(c: &Case) -> Result<Outcome, String> {
         }
     }
     if sut.map.verif_dump().bucket_mask + 1 != n {
-        return Ok(Outcome { in_place: false, grew: false, skipped: true });
+        return Ok(Outcome { in_place: false, grew: false, skipped: true, script: None });
     }
     // the triggering insertion
     let pre = sut.map.verif_dump();
@@ -135,6 +149,7 @@ pub fn run_case(c: &Case) -> Result<Outcome, String> {
     next_id += 1;
     env::with(|e| e.plan[id as usize] = mk_hash(pos(c.trig_off), c.trig_tag));
     let u = universe_now(next_id);
+    let before = rec.borrow().clone();
     match c.via {
         0 => step(&mut sut, MapOp::Entry(id, EAct::OrInsert), u)?,
         1 => step(&mut sut, MapOp::Insert(id), u)?,
@@ -144,6 +159,8 @@ pub fn run_case(c: &Case) -> Result<Outcome, String> {
             step(&mut sut, MapOp::Entry(id, EAct::Insert), u)?;
         }
     }
+    let trigger: Vec<MapOp> = rec.borrow()[before.len()..].to_vec();
+    let plan = env::with(|e| e.plan);
     let post = sut.map.verif_dump();
     let in_place = post.bucket_mask == pre.bucket_mask && inv::count_deleted(&pre) > 0 && inv::count_deleted(&post) == 0 && pre.items > 0;
     let grew = post.bucket_mask > pre.bucket_mask;
@@ -156,10 +173,18 @@ pub fn run_case(c: &Case) -> Result<Outcome, String> {
     }
     step(&mut sut, MapOp::Remove(id), u)?;
     sut.finish()?;
-    Ok(Outcome { in_place, grew, skipped: false })
+    let mut scfg = cfg.clone();
+    scfg.universe = u;
+    Ok(Outcome { in_place, grew, skipped: false, script: Some(Script { cfg: scfg, plan, before, trigger }) })
 }
 
 pub fn cases(tier: Tier) -> Vec<Case> {
+    cases_with_tags(tier, 0x11)
+}
+
+/// `tag2`: tag of the second home's block (0x11 = same tag as the first home, so lookups must tell the
+/// two apart by equality; another value = an element swapped into a slot leaves a foreign tag behind).
+pub fn cases_with_tags(tier: Tier, tag2: u8) -> Vec<Case> {
     let w = hashbrown::verif::GROUP_WIDTH as u8;
     let n = buckets_target() as u16;
     let q = tier == Tier::Quick;
@@ -179,10 +204,10 @@ pub fn cases(tier: Tier) -> Vec<Case> {
         v
     };
     let b1 = blocks_for(0, 0x11);
-    let b2 = blocks_for(3, 0x11);
+    let b2 = blocks_for(3, tag2);
     let b3 = blocks_for(w as i16, 0x12);
     let mut out = Vec::new();
-    let trig: Vec<(i16, u8)> = vec![(0, 0x11), (3, 0x11), (-1, 0x11), (w as i16, 0x12), (1, 0x13)];
+    let trig: Vec<(i16, u8)> = vec![(0, 0x11), (3, tag2), (-1, 0x11), (w as i16, 0x12), (1, 0x13)];
     for &base in &bases {
         for x in &b1 {
             for y in &b2 {
@@ -221,7 +246,10 @@ impl Config for RehashGrammar {
     fn run(&self) -> ConfigReport {
         crate::crumbs::set_config(&self.label());
         let t0 = std::time::Instant::now();
-        let cs = cases(self.tier);
+        let mut cs = cases(self.tier);
+        if self.tier != Tier::Quick {
+            cs.extend(cases_with_tags(self.tier, 0x14));
+        }
         let next = std::sync::atomic::AtomicUsize::new(0);
         let (ran, inplace, grew, skipped) = (AtomicU64::new(0), AtomicU64::new(0), AtomicU64::new(0), AtomicU64::new(0));
         let viol: Mutex<Option<(Value, String)>> = Mutex::new(None);
@@ -301,6 +329,147 @@ impl Config for RehashGrammar {
         let c: Case = serde_json::from_value(rp["case"].clone()).map_err(|e| format!("MACHINERY: bad replay: {e}"))?;
         match env::catch(|| run_case(&c)) {
             Ok(r) => r.map(|_| ()),
+            Err(m) => Err(format!("unexpected panic: {m}")),
+        }
+    }
+}
+
+// ---------------------------------------------------------------------------
+// Fault injection into the in-place rehashes of the layout grammar (C04): for every case whose
+// triggering operation rehashes in place, every callback invocation of that operation panics once.
+// ---------------------------------------------------------------------------
+
+pub struct RehashFaults {
+    pub tier: Tier,
+}
+
+fn fault_target(c: &Case) -> Result<Option<(MapHarness<TKey, TVal>, Vec<MapOp>, MapOp)>, String> {
+    let o = run_case(c)?;
+    if !o.in_place {
+        return Ok(None);
+    }
+    let s = match o.script {
+        Some(s) => s,
+        None => return Ok(None),
+    };
+    let mut h = MapHarness::<TKey, TVal>::new(s.cfg);
+    h.plan = s.plan;
+    let op = s.trigger[0];
+    Ok(Some((h, s.before, op)))
+}
+
+impl Config for RehashFaults {
+    fn label(&self) -> String {
+        "rehash-layout-grammar-faults".into()
+    }
+    fn run(&self) -> ConfigReport {
+        use crate::faults::{self, FaultStats};
+        crate::crumbs::set_config(&self.label());
+        let t0 = std::time::Instant::now();
+        let q = self.tier == Tier::Quick;
+        // quick: one base position and the two no-lookup / lookup insertion paths; thorough: the whole grammar
+        let mut cs: Vec<Case> = cases_with_tags(self.tier, 0x14).into_iter().filter(|c| !q || (c.base != 3 && c.blocks[0].home_off == 0)).collect();
+        if !q {
+            cs.extend(cases(self.tier));
+        }
+        let next = std::sync::atomic::AtomicUsize::new(0);
+        let (targets, runs) = (AtomicU64::new(0), AtomicU64::new(0));
+        let fs = FaultStats::default();
+        let viol: Mutex<Option<(Value, String)>> = Mutex::new(None);
+        let capped = std::sync::atomic::AtomicBool::new(false);
+        let wall_cap = if q { 40.0 } else { 1800.0 };
+        std::thread::scope(|sc| {
+            for w in 0..explore::nthreads() {
+                let (cs, next, targets, runs, viol, capped, fs) = (&cs, &next, &targets, &runs, &viol, &capped, &fs);
+                sc.spawn(move || {
+                    env::WORKER.with(|c| c.set(w));
+                    'cases: loop {
+                        let i = next.fetch_add(1, Ordering::Relaxed);
+                        if i >= cs.len() || viol.lock().unwrap().is_some() {
+                            break;
+                        }
+                        if t0.elapsed().as_secs_f64() > wall_cap {
+                            capped.store(true, Ordering::Relaxed);
+                            break;
+                        }
+                        crate::crumbs::set_replay(&json!({"case": cs[i]}).to_string());
+                        let tgt = match env::catch(|| fault_target(&cs[i])) {
+                            Ok(Ok(Some(t))) => t,
+                            Ok(Ok(None)) => continue,
+                            Ok(Err(m)) | Err(m) => {
+                                *viol.lock().unwrap() = Some((json!({"case": cs[i]}), m));
+                                break;
+                            }
+                        };
+                        let (h, hist, op) = tgt;
+                        targets.fetch_add(1, Ordering::Relaxed);
+                        let counts = match faults::count_run(&h, &hist, &op) {
+                            Ok(c) => c,
+                            Err(m) => {
+                                *viol.lock().unwrap() = Some((json!({"case": cs[i]}), m));
+                                break;
+                            }
+                        };
+                        for &class in env::ALL_PANIC_CLASSES.iter() {
+                            for k in 0..counts[class as usize] {
+                                let rp = json!({"case": cs[i], "fault": [class, k]});
+                                crate::crumbs::set_replay(&rp.to_string());
+                                runs.fetch_add(1, Ordering::Relaxed);
+                                let r = match env::catch(|| faults::one_fault(&h, &hist, &op, class, k, Some(fs))) {
+                                    Ok(r) => r,
+                                    Err(m) => Err(format!("unexpected panic in the harness after the fault: {m}")),
+                                };
+                                if let Err(m) = r {
+                                    *viol.lock().unwrap() = Some((rp, m));
+                                    break 'cases;
+                                }
+                            }
+                        }
+                    }
+                    crate::crumbs::clear();
+                });
+            }
+        });
+        let mut rep = ConfigReport {
+            label: self.label(),
+            mode: "enum(layout grammar) x faults".into(),
+            states: targets.load(Ordering::Relaxed),
+            executions: runs.load(Ordering::Relaxed),
+            transitions: runs.load(Ordering::Relaxed),
+            exhaustive: !capped.load(Ordering::Relaxed),
+            cap: if capped.load(Ordering::Relaxed) { Some(format!("wall cap {wall_cap}s")) } else { None },
+            wall_s: t0.elapsed().as_secs_f64(),
+            ..Default::default()
+        };
+        let inplace = fs.during_inplace_rehash.load(Ordering::Relaxed);
+        rep.detail = json!({"cases": cs.len(), "cases_whose_trigger_rehashes_in_place": rep.states, "faulted_runs": rep.executions,
+            "faults_fired_and_checked": fs.fired.load(Ordering::Relaxed), "fired_during_in_place_rehash": inplace,
+            "buckets": buckets_target(), "distinct_nontrivial": inplace});
+        if let Some((rp, m)) = viol.into_inner().unwrap() {
+            if m.starts_with("MACHINERY") {
+                rep.machinery_error = Some(m);
+            } else {
+                rep.violations.push(Viol { config: self.label(), message: m, replay: rp });
+            }
+        } else if inplace == 0 {
+            rep.machinery_error = Some("anti-vacuity: no fault was injected into an in-place rehash of the layout grammar".into());
+        }
+        rep
+    }
+    fn replay(&self, rp: &Value) -> Result<(), String> {
+        let c: Case = serde_json::from_value(rp["case"].clone()).map_err(|e| format!("MACHINERY: bad replay: {e}"))?;
+        let r = env::catch(|| -> Result<(), String> {
+            let tgt = fault_target(&c)?;
+            if rp.get("fault").is_none() || rp["fault"].is_null() {
+                return Ok(());
+            }
+            let (h, hist, op) = tgt.ok_or("MACHINERY: the case does not rehash in place")?;
+            let class: env::Class = serde_json::from_value(rp["fault"][0].clone()).map_err(|e| format!("MACHINERY: bad replay: {e}"))?;
+            let k: u32 = serde_json::from_value(rp["fault"][1].clone()).map_err(|e| format!("MACHINERY: bad replay: {e}"))?;
+            crate::faults::one_fault(&h, &hist, &op, class, k, None).map(|_| ())
+        });
+        match r {
+            Ok(r) => r,
             Err(m) => Err(format!("unexpected panic: {m}")),
         }
     }
